@@ -5,6 +5,21 @@ ROOT = os.path.dirname(os.path.dirname(os.path.abspath(__file__)))
 
 CHECKS = {
  # id: (engine, category, technique, level text, level note, design_ref)
+ "C07": ("dlrt", "exploration",
+   "stateful model-based property testing: generated op lists (consumer attach/write/read/drop, remote lane model steps, stalls, time) against the real Value/MapDownlinkRuntime polled by the harness; history-invariant oracle; proptest shrinking",
+   "3e5 (quick) op lists drive the real ValueDownlinkRuntime / MapDownlinkRuntime inside a paused seeded runtime: up to 5 consumers attach through AttachAction with options from {SYNC, KEEP_LINKED} and 1..4096-byte buffers, write operations at a generated pace and may drop at any point, while a legal remote lane model answers the frames the runtime writes (link, sync with full replay, commands applied and echoed), makes spontaneous changes, unlinks, drops and stalls by partial reads/writes. Per consumer: linked, then (SYNC) synced with a state equal to some instant of the lane's history followed by exactly its later events, gap-free in emission order, unlinked at close; on the wire: link first, sync only for SYNC consumers, no fabricated/duplicated commands, per-consumer (value) and per-key/clear (map) order, only superseded commands dropped.",
+   "Trusts: the harness remote lane model only produces sequences a real lane can produce. Known findings excluded by (deliberately narrow) signatures: the read task cannot tell which synced answers whose sync (a map consumer joining mid-replay is synced with a partial map; a sync answered before the read task took the consumer from its queue never syncs it).",
+   "DESIGN.md §4 C07"),
+ "C12": ("enum", "exploration",
+   "bounded-exhaustive enumeration of operation sequences on the real byte channel with counting wakers against a reference FIFO model, random longer sequences, and a real-thread deadlock tier",
+   "Every sequence of {write 1/2/cap/cap+1 bytes, read into 0/1/2/cap bytes, flush, shutdown, drop writer, drop reader} to depth 8 (9.8e8 sequences quick; depth 10 thorough) for capacities 1..4 and coop budgets {64,2,3} is executed on the real ByteWriter/ByteReader poll functions next to a model: bytes read are a prefix of bytes written, buffered <= capacity, EOF after drain, writes fail after reader drop, a Pending is legitimate only if blocked or the own waker was woken (coop yield), and a parked side whose blocking condition is lifted by the other side's op must have been woken by the end of that op. 4e6 random sequences to length 200 (capacities to 64, waker switches, budget resets) and 1.2e4 real-thread runs with a deadlock monitor on top.",
+   "Trusts: op-level interleavings are all interleavings because every channel op runs under the channel's mutex; real concurrency is only sampled by the thread tier.",
+   "DESIGN.md §4 C12"),
+ "C17": ("enum", "exploration",
+   "bounded-exhaustive enumeration of vote/rescind/drop/poll sequences on the real coordinator against a reference model (2 and 3 parties), caller-restricted enumeration to greater depth, random sequences and a real-thread tier",
+   "Every sequence of {vote_i, rescind_i, drop_i, poll receiver} for the downlink (2 party) and agent (3 party) coordinators to depth 10 / 8 (any order) and 12 / 10 (restricted to what the runtime tasks do) - 7.7e7 sequences quick, depth 13/11 and 15/13 thorough - is executed on the real Voter/Receiver with counting wakers: a stop is unanimous only when every party has an outstanding vote or is gone, a rescind told UnanimityPending guarantees the stop has not begun and does not begin until that party votes again, unanimity is never undone, a dropped party counts as voting, and a parked receiver is woken when the latch sets. 3e6 random sequences to length 60 and 3e4 OS-thread runs with schedule-independent invariants.",
+   "Trusts: only sequentially consistent interleavings are explored (Relaxed atomics on x86); the three-step Receiver::poll race is only sampled by the thread tier (caught at thorough).",
+   "DESIGN.md §4 C17"),
  "C11": ("pure+socket+multireader", "exploration",
    "property-based testing: encoder/peeler round trip over generated envelopes; stateful generated scenarios over two real RemoteTasks joined by an in-memory websocket with harness agents/downlinks and injected frames; model-based MultiReader check with counting wakers",
    "1.5e6 generated envelopes (8 kinds + NoSuchAgent forms x adversarial node/lane strings x real printer bodies) must peel to the same kind, node, lane and body; truncated / one-character-mutated envelopes never panic the reader; 1.2e5 socket scenarios run two real RemoteTasks (polled by hand in a paused seeded runtime) with several harness agents, downlinks and one-way clients on confusable (node, lane) pairs attaching, writing and detaching in generated order plus injected valid/alternative-spelling/invalid frames: every message must arrive at exactly its addressee with identical content, once, in source order, and invalid frames reach no one and close the connection; MultiReader with up to 130 scripted streams must yield every item exactly once in per-stream order, end only after all streams ended and never lose a wake-up.",
@@ -116,6 +131,7 @@ def main():
             {"name": "enum", "path": "/verif/harness/c12 c17 c20", "serves_properties": ["C12","C17","C20"], "kind_free_text": "bounded-exhaustive enumeration of op sequences on the real implementation with counting wakers / reference models"},
             {"name": "store", "path": "/verif/harness/c13", "serves_properties": ["C13"], "kind_free_text": "model-based histories on RocksDB (real directories, reopen, child-process SIGKILL) and the in-memory store"},
             {"name": "socket", "path": "/verif/harness/c11", "serves_properties": ["C11"], "kind_free_text": "two real RemoteTasks over an in-memory websocket, harness relay that records and injects frames; pure ReconEncoder/peeler round trip; MultiReader model check"},
+            {"name": "dlrt", "path": "/verif/harness/c07", "serves_properties": ["C07"], "kind_free_text": "real Value/MapDownlinkRuntime polled by the harness; legal remote lane model and N consumers driven by a generated op list"},
             {"name": "pure", "path": "/verif/harness/c09 c10 c15 c16 c18 c19 (+ vgen, vcommon)", "serves_properties": ["C09","C10","C15","C16","C18","C19"], "kind_free_text": "proptest TestRunner / bounded-exhaustive enumeration over pure functions with explicit oracles"},
         ],
         "checks": checks,
